@@ -241,4 +241,56 @@ pub fn run(ctx: &mut Ctx) {
         { let mut m = pb.clone(); let (a, b) = m.split_at_mut(40); a[24..40].swap_with_slice(&mut b[..16]); patch_case(ctx, &m, &base, None, "digests swapped"); }
         if pb.len() > 3 { patch_case(ctx, &pb[..pb.len() - 1], &base, None, "truncated by one"); patch_case(ctx, &pb[..66.min(pb.len())], &base, None, "truncated header"); }
     }
+    // patch entries inside a chain: an archive whose entry carries the patch-file flag (TPatchInfo + PTCH image stored
+    // raw; the flag is set in the encrypted block table through the public cipher, the builder cannot emit it) on top of
+    // a base archive. The chain returns the patched bytes when the patch applies, and an error - never the unpatched
+    // base, never unverified bytes - when it does not
+    {
+        use wow_mpq::crypto::{decrypt_block, encrypt_block, hash_string, hash_type};
+        let dir = tempfile::tempdir().expect("tmp");
+        const NAME: &str = "Data\\patched.dat";
+        let plain = |file: &str, data: &[u8]| -> Option<PathBuf> { let p = dir.path().join(file); ArchiveBuilder::new().listfile_option(ListfileOption::Generate).add_file_data_with_options(data.to_vec(), NAME, 0, false, 0).build(&p).ok()?; Some(p) };
+        let mark = |path: &PathBuf| -> bool {
+            let Ok(a) = wow_mpq::Archive::open(path) else { return false };
+            let Ok(Some(fi)) = a.find_file(NAME) else { return false };
+            let bi = fi.block_index; drop(a);
+            let Ok(mut bytes) = std::fs::read(path) else { return false };
+            let rd = |b: &[u8], o: usize| u32::from_le_bytes([b[o], b[o + 1], b[o + 2], b[o + 3]]);
+            let (bp, bc) = (rd(&bytes, 0x14) as usize, rd(&bytes, 0x1c) as usize);
+            if bi >= bc || bp + bc * 16 > bytes.len() { return false; }
+            let mut t: Vec<u32> = (0..bc * 4).map(|i| rd(&bytes, bp + i * 4)).collect();
+            let key = hash_string("(block table)", hash_type::FILE_KEY);
+            decrypt_block(&mut t, key); t[bi * 4 + 3] |= 0x0010_0000; encrypt_block(&mut t, key);
+            for (i, w) in t.iter().enumerate() { bytes[bp + i * 4..bp + i * 4 + 4].copy_from_slice(&w.to_le_bytes()); }
+            std::fs::write(path, bytes).is_ok()
+        };
+        let entry = |ptch: &[u8]| -> Vec<u8> { let mut d = vec![]; d.extend_from_slice(&28u32.to_le_bytes()); d.extend_from_slice(&0u32.to_le_bytes()); d.extend_from_slice(&(ptch.len() as u32).to_le_bytes()); d.extend_from_slice(&md5(ptch)); d.extend_from_slice(ptch); d };
+        let n = if ctx.thorough { 40 } else { 10 };
+        for k in 0..n {
+            let blen = ctx.rng.range(1, 300) as usize; let nlen = ctx.rng.range(1, 300) as usize;
+            let base = ctx.rng.bytes(blen); let new = ctx.rng.bytes(nlen);
+            let bsd = k % 2 == 1;
+            let good = if bsd { let mut rng = ctx.rng.clone(); let blk = bsd0_block(&mut rng, &base, &new); ctx.rng = rng; patch_bytes("bsd0", &base, &new, &rle_encode(&blk), blk.len() as u32) } else { patch_bytes("copy", &base, &new, &new, new.len() as u32) };
+            // variants: well-formed; one payload byte altered; declared base digest altered; declared result digest altered
+            let mut variants: Vec<(&str, Vec<u8>, bool)> = vec![("well-formed", good.clone(), true)];
+            { let mut m = good.clone(); let p = m.len() - 1 - ctx.rng.below(((m.len() - 68).max(1)) as u64) as usize; m[p] ^= 0x20; variants.push(("payload byte altered", m, false)); }
+            { let mut m = good.clone(); m[24] ^= 1; variants.push(("base digest altered", m, false)); }
+            { let mut m = good.clone(); m[40] ^= 1; variants.push(("result digest altered", m, false)); }
+            for (what, ptch, should_apply) in variants {
+                let (Some(bp), Some(pp)) = (plain(&format!("b{k}.mpq"), &base), plain(&format!("p{k}.mpq"), &entry(&ptch))) else { ctx.out.stat("c08.chainpatch.build_failed"); continue };
+                if !mark(&pp) { ctx.out.stat("c08.chainpatch.mark_failed"); continue; }
+                let mut chain = PatchChain::new();
+                if chain.add_archive(&bp, 0).is_err() || chain.add_archive(&pp, 100).is_err() { ctx.out.stat("c08.chainpatch.add_failed"); continue; }
+                let got = std::panic::catch_unwind(std::panic::AssertUnwindSafe(|| chain.read_file(NAME)));
+                let desc = format!("{} patch entry over a {blen}-byte base, {what}", if bsd { "BSD0" } else { "COPY" });
+                match got {
+                    Err(_) => ctx.out.oracle(false, "patch-panic", &desc),
+                    Ok(Ok(d)) => { if should_apply { ctx.out.oracle(d == new, "chain-patch-not-applied", &format!("{desc}: got {} bytes (base {} / new {})", d.len(), blen, nlen)); if d == new { ctx.out.nontrivial(desc.as_bytes()); } }
+                                   else { ctx.out.oracle(md5(&d)[..] == ptch[40..56] && d != base, "chain-returns-unverified-bytes", &format!("{desc}: read_file returned Ok with {} bytes{}", d.len(), if d == base { " (the unpatched base)" } else { "" })); } }
+                    Ok(Err(_)) => ctx.out.oracle(!should_apply, "chain-patch-not-applied", &format!("{desc}: error")),
+                }
+                ctx.out.stat(&format!("c08.chainpatch.{}", what.replace(' ', "_")));
+            }
+        }
+    }
 }
